@@ -320,6 +320,7 @@ func checkC01(w *World) {
 
 	w.checkRootHandling(P, f, r, ef)
 	w.checkContextConstruction(P, f, r)
+	w.checkPrincipalNodeType(P, f, r, ef)
 	// node tests and selectors never modify the node-set they were given (it is shared with other contexts)
 	w.include(P, "C03", "R03.6")
 }
